@@ -176,6 +176,7 @@ class Zombie:
         self.sim = sim
         self.blocked_by = blocked_by
         self.wake_in = None
+        self.on_finish = None
         self.label = sim.fault_label(ctx.site, ctx.key)
         self.ctx = ctx
         self.q = q
@@ -246,6 +247,12 @@ class Zombie:
             raise HarnessError("zombie thread did not yield within %.0fs" % self.WAIT)
         after = self._snapshot()
         sim = self.sim
+        if self.finished and self.on_finish is not None:
+            cb, self.on_finish = self.on_finish, None
+            try:
+                cb(None, self.error) if self.error is not None else cb(None)
+            except Exception:
+                pass
         sim.fired["zombie_step"] += 1
         sim.event("zstep", self.label, self.line, self.finished)
         sim.note_interleave("z", self.label, self.line, repr(where))
@@ -296,8 +303,18 @@ class SimAsyncResult:
         self.args = tuple(args)
         self.kwds = dict(kwds or {})
         self.pool = pool
+        self.callback = None
+        self.error_callback = None
         self._done = False
         self._value = None
+
+    def _notify(self, value=None, error=None):
+        """What the pool's result-handler thread does when a job completes."""
+        if self.pool is not None and getattr(self.pool, "terminated", False):
+            return
+        cb = self.error_callback if error is not None else self.callback
+        if cb is not None:
+            cb(error if error is not None else value)
 
     def _classify(self, sim):
         name = getattr(self.func, "__name__", "")
@@ -358,6 +375,7 @@ class SimAsyncResult:
             q = 0.0 if hang else float(f.get("q", sim.zombie_q))
             shared = self.args[1] if isinstance(self.args[1], dict) else None
             z = Zombie(sim, self.func, self.args, self.kwds, ctx, q, shared)
+            z.on_finish = self._notify
             if pool is not None:
                 pool.occupants.append(z)
             if f.get("wake_in") and not hang:
@@ -377,7 +395,12 @@ class SimAsyncResult:
         prev = sim.job
         sim.job = ctx
         try:
-            self._value = self.func(*self.args, **self.kwds)
+            try:
+                self._value = self.func(*self.args, **self.kwds)
+            except Exception as e:
+                self._notify(error=e)
+                raise
+            self._notify(value=self._value)
         finally:
             sim.job = prev
             sim.advance(sim.duration(("job", ctx.site)))
@@ -400,27 +423,38 @@ class SimThreadPool:
     def __init__(self, processes=None, *a, **kw):
         self.capacity = int(processes) if processes else None
         self.occupants = []
+        self.terminated = False
 
     def live_occupants(self, sim):
         self.occupants = [z for z in self.occupants if z.sim is sim and not z.finished and not z.aborted]
         return self.occupants
 
     def apply_async(self, func, args=(), kwds=None, callback=None, error_callback=None):
-        return SimAsyncResult(func, args, kwds, pool=self)
+        if self.terminated:
+            raise ValueError("Pool not running")
+        r = SimAsyncResult(func, args, kwds, pool=self)
+        r.callback, r.error_callback = callback, error_callback
+        return r
 
     def apply(self, func, args=(), kwds=None):
         return func(*args, **(kwds or {}))
 
     def terminate(self):
+        # the worker thread cannot be killed, but the pool's result handler stops: callbacks of jobs that
+        # are still running never fire
+        self.terminated = True
+
+    def close(self):
         pass
 
-    close = terminate
-    join = terminate
+    def join(self):
+        pass
 
     def __enter__(self):
         return self
 
     def __exit__(self, *a):
+        self.terminate()
         return False
 
 
